@@ -156,3 +156,34 @@ Proof.
   intros sv Hin. cbn [saves_of In] in Hin.
   destruct Hin as [<- | [<- | [<- | []]]]; vm_compute; discriminate.
 Qed.
+
+(* ======================= inside the search (Compose/TT*.v) =======================
+   The theorems above are about operation lists.  The search model reaches the table only through tt_get / tt_save: the table after
+   ANY call of the search is the table before it with a list of saves applied, each for the hash of a position visited from the root,
+   with depth > 0 and a valid bound type; hence the table of any session of searches from the empty table IS the table of an operation
+   list, and every usable probe on it - in particular every table cutoff a node of a later search takes - is justified by a record
+   stored earlier in the session for exactly that 64-bit hash, with at least the requested depth, whose bound allows the result. *)
+From Clemens Require Search.Negamax Search.GoInst.
+From Clemens.C13Bridge Require Seq.
+From Clemens.Compose Require TTGrow TTSession TTExamples.
+Import Clemens.Search.Negamax Clemens.Search.GoInst.
+
+Theorem C14_search_table_grows : forall root iters fuel rep s req,
+  TTSession.grows (TTSession.stored_by root) (s_tt s) (s_tt (snd (go_search iters fuel rep s root req))).
+Proof. exact TTSession.go_search_table_grows. Qed.
+Print Assumptions C14_search_table_grows.
+
+Theorem C14_session_table_log : forall roots s, Seq.session roots s -> TTSession.session_table roots (s_tt s).
+Proof. exact TTSession.session_table_log. Qed.
+Print Assumptions C14_session_table_log.
+
+Theorem C14_session_probe_justified : forall roots t h alpha beta depth ply sc mv,
+  TTSession.session_table roots t -> h <> 0%N ->
+  tt_get tt_numberOfBuckets eval_INF t h alpha beta depth ply = (sc, true, mv) ->
+  exists sv, TTSession.stored_in roots sv /\ sv_hash sv = h /\ explains eval_INF sv alpha beta depth ply sc mv.
+Proof. exact TTSession.session_probe_justified. Qed.
+Print Assumptions C14_session_probe_justified.
+
+(* unlike the evaluation cache the table is NOT transparent: the next search on the table a depth-3 search left visits 237 nodes
+   instead of 538 (kernel-evaluated) - the property is soundness of what is returned, not invisibility *)
+Example C14_table_changes_the_search := TTExamples.second_search_observed.
